@@ -1,5 +1,5 @@
 """C01 - daily soil-water balance closes (kind B, exploration)."""
-from .common import std_case, std_run, STATE_MEASURE  # noqa: F401
+from .common import std_case, std_run, basin_regime, BASIN_PROFILE, hardpan_regime, HARDPAN_PROFILE, STATE_MEASURE  # noqa: F401
 from ..monitors import mon_c01
 
 ID = "C01"
@@ -13,12 +13,18 @@ RULE = ("seeded swarm of bundle specs (crop x soil x irrigation x field manageme
         "percolation, capillary rise, ponding or irrigation was > 0 on some day; distinct = distinct configuration signatures "
         "(crop, soil, layers, strategy, bunds, mulches, fallow management, water table, off-season, initial-water kind, overrides)")
 ASSUMPTIONS = ["storage is integrated with the compartment thicknesses copied at initialisation (C12 guards their constancy)"]
-PROFILE = {"bunds": 0.45, "mulch_p": 0.4, "field_p": 0.6, "fallow_field_p": 0.4, "gw": 0.3, "custom_soil_p": 0.3,
+PROFILE = {"reactive_p": 0.3, "bunds": 0.45, "mulch_p": 0.4, "field_p": 0.6, "fallow_field_p": 0.4, "gw": 0.3, "custom_soil_p": 0.3,
            "sat_start_p": 0.2, "irr_methods": [0, 1, 2, 3, 4, 4, 5, 5], "events_per_year": 2.0, "off_season_p": 0.5,
            "n_seasons": [1, 1, 2, 2, 3]}
 
 
 def gen_case(rng, tier, idx):
+    if idx % 4 == 1:
+        # flooded basin whose management changes at harvest (bunds lowered or removed) with the off-season simulated
+        return basin_regime(rng, std_case(rng, dict(PROFILE, **BASIN_PROFILE)))
+    if idx % 4 == 2:
+        # permeable top soil over a nearly impermeable porous pan, frequent rain
+        return hardpan_regime(rng, std_case(rng, dict(PROFILE, **HARDPAN_PROFILE)))
     return std_case(rng, PROFILE)
 
 
